@@ -42,6 +42,8 @@ class VT(object):
         self.exc = None
         self.real = None
         self.deadlocked = False
+        self.held = 0               # locks currently owned
+        self.npoints = 0
 
     def __repr__(self):
         return "<VT %d %s %s on=%s>" % (self.idx, self.name, self.state,
@@ -70,6 +72,12 @@ class Sched(object):
         self.forced = {}            # scheduling point index -> thread pick
         self.points = 0             # scheduling points with a real choice
         self.rng = _random.Random(seed)
+        # injected descheduling: [name substring, n, seconds] parks the first
+        # thread whose name contains the substring for that much virtual time
+        # when it reaches its n-th scheduling point (what an OS does to a
+        # thread that lost the CPU); each entry fires once
+        self.stalls = []
+        self.stalled = 0
         me = VT(self, "controller", 0)
         me.state = RUNNABLE
         me.real = _th.current_thread()
@@ -171,6 +179,21 @@ class Sched(object):
         t.wait_on = None
         t.deadline = None
 
+    def _maybe_stall(self, me):
+        if not self.stalls or me is self.controller or me.held:
+            return      # only threads that hold no lock are descheduled
+        me.npoints += 1
+        for i, (pat, n, d) in enumerate(self.stalls):
+            if n == me.npoints and pat in me.name:
+                del self.stalls[i]
+                self.stalled += 1
+                me.state = BLOCKED
+                me.wait_on = "stall"
+                me.timed_out = False
+                me.deadline = self.now + d
+                self.switch(me)
+                return
+
     def block(self, on, timeout=None):
         """returns True when woken, False when the virtual timeout expired"""
         me = self.me()
@@ -180,7 +203,9 @@ class Sched(object):
         me.deadlocked = False
         me.deadline = None if timeout is None else self.now + max(0, timeout)
         self.switch(me)
-        return not me.timed_out
+        woken = not me.timed_out
+        self._maybe_stall(me)
+        return woken
 
     def wake(self, t):
         if t.state == BLOCKED:
@@ -189,6 +214,7 @@ class Sched(object):
             t.deadline = None
 
     def yield_(self):
+        self._maybe_stall(self.me())
         self.switch(self.me())
 
     # ---------------------------------------------------------- controller
@@ -328,6 +354,8 @@ class VLock(object):
                 s.block(self)
         self.owner = me
         self.count += 1
+        if self.count == 1:
+            me.held += 1
         return True
 
     def release(self):
@@ -341,6 +369,7 @@ class VLock(object):
         self.count -= 1
         if self.count == 0:
             self.owner = None
+            me.held -= 1
             for t in self.waiters:
                 s.wake(t)
             self.waiters = []
@@ -387,6 +416,7 @@ class VCondition(object):
         saved = lock.count
         lock.count = 0
         lock.owner = None
+        me.held -= 1
         for t in lock.waiters:
             s.wake(t)
         lock.waiters = []
@@ -399,6 +429,7 @@ class VCondition(object):
             s.block(lock)
         lock.owner = me
         lock.count = saved
+        me.held += 1
         return ok
 
     def notify(self, n=1):
